@@ -3,7 +3,7 @@
    Models: Model/XrefTab.v (pdf_file.rs XrefEntP / XrefSubSectP / XrefSectP as repaired in
    c0b3e1e), Model/XrefStm.v (pdf_streams.rs XrefStreamP); renderers: Spec/XrefEnc.v. *)
 From PV Require Import Model.Prim Model.XrefTab Model.XrefStm Spec.XrefEnc.
-From PV Require Import Proofs.XrefBase Proofs.XrefTab Proofs.XrefStm Proofs.Bin.
+From PV Require Import Proofs.XrefBase Proofs.XrefTab Proofs.XrefStm Proofs.Bin Proofs.XrefTotal.
 
 (* ---------------- classic table ---------------- *)
 (* a written section (any subsection partition, any of the three terminators per entry, any
@@ -123,6 +123,26 @@ Proof. exact xrefstm_accepts_only_complete. Qed.
 Theorem C13_dict_no_panic : forall d, (exists m, get_dict_info d = Ok m) \/ get_dict_info d = Err EGuard.
 Proof. exact get_dict_info_guard. Qed.
 
+(* ---------------- totality (C01): no panic site reachable, fuel never exhausted ---------------- *)
+(* the table parser, on ANY bytes and any cursor inside the buffer (no size restriction) *)
+Theorem C13_table_total : forall s c, c <= len s -> xsectp s c <> PPanic /\ xsectp s c <> PFuel.
+Proof. exact xsectp_total. Qed.
+
+(* the stream parser (get_dict_info + parse_stream), on ANY dictionary whose integers are i64
+   values (PDFObjT::Integer is an i64; only /Size and the /Index members matter), any content,
+   any decoder output, encrypted or not *)
+Theorem C13_stream_total : forall enc d content dec c,
+  xref_ints_i64 d -> c <= len content ->
+  xrefstm_parse enc d content dec c <> XSPanic /\ xrefstm_parse enc d content dec c <> XSFuel.
+Proof. exact xrefstm_total. Qed.
+
+(* parse_usize_with_width: for the admitted widths (0..4, indeed up to 8) the shifts lose no bit —
+   the value is the big-endian number denoted by the bytes; larger widths are rejected by
+   C13_stream_rejects *)
+Theorem C13_usize_width_exact : forall w s c, w <= 8 -> c + w <= len s -> wfb s ->
+  usize_w w 0 s c = POk (val Big (sub s c (c + w))) (c + w).
+Proof. exact usize_w_exact. Qed.
+
 (* the hypotheses are satisfiable *)
 Example C13_wf_sect_satisfiable :
   wf_sect [] [10%N] [mk_tsub [] 0 1 1 [10%N] [mk_tent 0 65535 false [32; 10]%N]] (B "trailer").
@@ -156,3 +176,6 @@ Print Assumptions C13_stream_rejects.
 Print Assumptions C13_stream_rejects_type.
 Print Assumptions C13_stream_rejects_truncated.
 Print Assumptions C13_dict_no_panic.
+Print Assumptions C13_table_total.
+Print Assumptions C13_stream_total.
+Print Assumptions C13_usize_width_exact.
